@@ -82,6 +82,12 @@ def cross_process(h: Harness):
     # production weights on two abstract symbols, read by the stack mapping; 20 objectives under lexicase selection
     for a, r, gname in (("rs", "stack", "weighted"), ("gp", "stack", "weighted"), ("gplex", "tree", "plain"), ("gplex", "ge", "full")):
         configs.append([a, r, gname, 2, {"gp": 30, "gplex": 60}.get(a, 12)])
+    # a grammar with a production that fails in some contexts, ONE grammar object for several searches; a warm start from the
+    # user's own list of seed programs, handed to every run
+    for a, r in (("rs", "tree"), ("gp", "tree"), ("gp", "ge"), ("hc", "sge"), ("gp", "dsge")):
+        configs.append([a, r, "backtrack", 3, {"gp": 30}.get(a, 12)])
+    for gname in ("plain", "backtrack"):
+        configs.append(["gpinject", "tree", gname, 4, 30])
     envs = [{"PYTHONHASHSEED": "0", "C08_PAD": "0", "C08_IMPORT_ORDER": "a"},
             {"PYTHONHASHSEED": "1", "C08_PAD": "1000", "C08_IMPORT_ORDER": "b", "C08_HOLES": "1"},
             {"PYTHONHASHSEED": "4242", "C08_PAD": "123457", "C08_IMPORT_ORDER": "a"}]
@@ -98,7 +104,7 @@ def cross_process(h: Harness):
             continue
         ref = base[key]
         # one after the other in the same process (second and third run use a user-supplied tracker)
-        for again in ("#again", "#again2", "#sharedrep1", "#sharedrep2"):
+        for again in ("#again", "#again2", "#sharedrep1", "#sharedrep2", "#sharedgrammar1", "#sharedgrammar2"):
             other = base.get(key + again)
             if other is not None and other != ref:
                 h.fail(key.split("/")[1], "irreproducible-within-process",
